@@ -12,6 +12,8 @@ mod iteration_end;
 mod leader;
 mod replay;
 mod state_handler;
+#[cfg(feature = "verif")]
+pub mod verif_hooks;
 
 #[derive(Debug, Serialize, Deserialize, Clone)]
 pub(crate) enum IterationResult {
